@@ -609,6 +609,8 @@ static size_t bound_of(int codec, size_t n) {
         case 2: return carquet_gzip_compress_bound(n); default: return carquet_zstd_compress_bound(n); }
 }
 
+carquet_status_t carquet_delta_length_encode(const carquet_byte_array_t*, int32_t, carquet_buffer_t*);
+carquet_status_t carquet_delta_strings_encode(const carquet_byte_array_t*, int32_t, carquet_buffer_t*);
 /* allocation balance of the other decoders of the C08 list on a (mostly failing) input */
 static void do_c8_bal(hctx* h, const char* dec, long long n, int w, const uint8_t* d, size_t dn) {
     uint8_t* in = bytes_exact(d, dn);
@@ -679,6 +681,23 @@ static void gen_c8codec(hctx* h) {
           if (i % 8 < 4 && n >= 4 && h_chance(h, 2, 3)) { m[0] = 0x80; m[1] = 0x01; m[2] = 0x04; m[3] = (uint8_t)h_below(h, 40); }   /* delta header 128/4/count */
           if ((i % 8 == 4 || i % 8 == 5) && n) m[0] = (uint8_t)(h_chance(h, 1, 2) ? h_below(h, 5) : h_below(h, 256));                  /* index width byte */
           do_c8_bal(h, d, (long long)h_below(h, 40) - 1, 0, m, n);
+      } }
+    /* ... and on REAL encodings of many values cut short (decoders that keep their scratch on the stack for small counts and on
+     * the heap for large ones: 256 / 257 values and more), the cut in the lengths section, in the data section, one byte short */
+    { static const int counts[] = { 255, 256, 257, 300, 1000 };
+      for (int ci = 0; ci < 5; ci++) for (int kind = 0; kind < 2; kind++) {
+          int nv = counts[ci];
+          carquet_byte_array_t* vals = (carquet_byte_array_t*)h_alloc((size_t)nv * sizeof *vals);
+          uint8_t* pool = h_alloc((size_t)nv * 4 + 8); h_fill(h, pool, (size_t)nv * 4 + 8, 0);
+          for (int i = 0; i < nv; i++) { vals[i].data = pool + (size_t)i * 3; vals[i].length = (int32_t)(1 + (i * 7 + ci) % 4); }
+          carquet_buffer_t eb; carquet_buffer_init(&eb);
+          carquet_status_t es = kind ? carquet_delta_strings_encode(vals, nv, &eb) : carquet_delta_length_encode(vals, nv, &eb);
+          if (es == CARQUET_OK && eb.size > 8) {
+              size_t cuts[5] = { eb.size - 1, eb.size - 2, eb.size / 2, eb.size - (size_t)nv / 2, 6 };
+              for (int q = 0; q < 5; q++) if (cuts[q] < eb.size) do_c8_bal(h, kind ? "dstr" : "dlen", nv, 0, eb.data, cuts[q]);
+              do_c8_bal(h, kind ? "dstr" : "dlen", nv, 0, eb.data, eb.size);
+          }
+          carquet_buffer_destroy(&eb); free(vals); free(pool);
       } }
     free(x); free(c); free(m);
     static const char* names[] = {"snappy", "lz4", "gzip", "zstd"};
